@@ -323,6 +323,25 @@ func (g *c15Gen) attrs(d, maxDepth, maxN int) []sa {
 	for i := 0; i < n; i++ {
 		out = append(out, sa{g.key(d), g.val(d, maxDepth)})
 	}
+	if maxDepth-d >= 2 && g.r.Chance(35) { // make sure deep nesting occurs: a chain of groups down to maxDepth
+		out = append(out, sa{g.key(d), g.chain(d, maxDepth)})
+	}
+	return out
+}
+
+// chain: groups nested down to maxDepth, each with a few other members, some reached through a LogValuer
+func (g *c15Gen) chain(d, maxDepth int) sv {
+	if d >= maxDepth {
+		return g.leaf()
+	}
+	out := sv{K: "group"}
+	for i := g.r.Intn(3); i > 0; i-- {
+		out.Items = append(out.Items, sa{g.key(d + 1), g.leaf()})
+	}
+	out.Items = append(out.Items, sa{g.key(d + 1), g.chain(d+1, maxDepth)})
+	if g.r.Chance(30) {
+		return sv{K: "valuer", V: &out}
+	}
 	return out
 }
 
@@ -1369,7 +1388,7 @@ func runC15(r *Run) {
 	for _, z := range c15Levels {
 		c15Conv(r, snap, z)
 	}
-	for i := r.N(40, 2000); i > 0; i-- {
+	for i := r.N(100, 5000); i > 0; i-- {
 		c15Conv(r, snap, int64(r.R.U64()))
 	}
 	for l := -1; l <= 13; l++ {
@@ -1382,7 +1401,7 @@ func runC15(r *Run) {
 		}
 	}
 	// attribute trees
-	for i := r.N(300, 6000); i > 0; i-- {
+	for i := r.N(1200, 20000); i > 0; i-- {
 		g := &c15Gen{r: r.R}
 		md := 1 + r.R.Intn(4)
 		c15Tree(r, snap, g.attrs(0, md, 5), "random")
@@ -1420,7 +1439,7 @@ func runC15(r *Run) {
 		}
 	}
 	// handlers
-	for i := r.N(700, 12000); i > 0; i-- {
+	for i := r.N(2000, 40000); i > 0; i-- {
 		c15Handle(r, snap, genHandleCase(r, 1+r.R.Intn(4)))
 	}
 	// the witnesses of Props/C15.v on the implementation
